@@ -672,3 +672,9 @@ Q(id='C07.aln_continue', props=['C07'], cls='P', harness='c07_continue.c', entry
   mode='dfcc', replace=['aln_runner', 'aln_runner_serial'], unwind=14, timeout=900, replayable=False,
   funcs=['aln_continue'], trusted=[TRUST_MSG, 'aln_runner / aln_runner_serial replaced at the call sites by the contract of contracts/aln_controller.contracts.h (arguments compared with the prescribed split)'],
   assumptions=[A_NOFAIL, 'block coordinates symbolic with starta < mid < enda < 10 (size of the harness path buffer) and startb <= meet <= endb < 1000; boundary states symbolic over the full float domain'])
+Q(id='C07.aln_runner_serial', props=['C07', 'C02'], cls='P', harness='c07_runner.c', entry='h_c07_runner',
+  mode='dfcc', replace=['aln_seqseq_foward', 'aln_seqseq_backward', 'aln_seqseq_meetup', 'aln_profileprofile_foward', 'aln_profileprofile_backward', 'aln_profileprofile_meetup',
+                        'aln_seqprofile_foward', 'aln_seqprofile_backward', 'aln_seqprofile_meetup', 'aln_continue'],
+  unwind=4, timeout=600, replayable=False, funcs=['aln_runner_serial'],
+  trusted=[TRUST_MSG, 'kernels and aln_continue replaced at the call sites by order/argument contracts (contracts/aln_runner.contracts.h); each has its own queries'],
+  assumptions=[A_NOFAIL, 'block coordinates symbolic in 0..100000, boundary states over the full float domain, all three operand kinds; full-alignment mode (ALN_MODE_FULL)'])
